@@ -37,6 +37,10 @@ Inductive case :=
        (rf32 rf64 rf64u : orf) (sb64 sb32 : Z) (sc64 sc32 pf64 pf32 : option Z)
 (* arbitrary bytes (not necessarily a valid literal) through readFloat and parseUint64_simple *)
 | CRaw (id : N) (bytes : list N) (rf32 rf64 rf64u : orf) (pn : Z) (pok : bool)
+       (sc64 sc32 pf64 pf32 : option Z)    (* strconv / parseFloat64,32 of /repo on the same bytes: None = error *)
+(* a quoted map key under MapKeyAsString decoded into an interface{} key: did it come back
+   as a number, and does the same text fail as a bare number into interface{} *)
+| CKey (id : N) (bytes : list N) (as_number : bool) (bare_err : bool)
 | CFast (id : N) (m e : Z) (neg : bool) (o64 o32 : ofp)
 (* input = a string literal followed by other bytes; what the Decoder returned and
    NumBytesRead; what encoding/json returned for the literal alone *)
@@ -48,7 +52,7 @@ Inductive case :=
 
 Definition case_id (c : case) : N :=
   match c with
-  | CNum id _ _ _ _ _ _ _ _ _ _ _ _ => id | CRaw id _ _ _ _ _ _ => id | CFast id _ _ _ _ _ => id
+  | CNum id _ _ _ _ _ _ _ _ _ _ _ _ => id | CRaw id _ _ _ _ _ _ _ _ _ _ => id | CKey id _ _ _ => id | CFast id _ _ _ _ _ => id
   | CStr id _ _ _ _ _ _ _ _ => id | CQuote id _ _ _ _ => id | CInt id _ _ _ _ => id | CFmt id _ _ _ _ => id
   end.
 
@@ -66,12 +70,18 @@ Definition check_case (c : case) : bool :=
     && (num_bits binary32 lit =? sb32)%Z
     && optz_eqb (parseFloat_custom orc binary64 bytes) pf64
     && optz_eqb (parseFloat_custom orc binary32 bytes) pf32
-  | CRaw _ bytes rf32 rf64 rf64u pn pok =>
+  | CRaw _ bytes rf32 rf64 rf64u pn pok sc64 sc32 pf64 pf32 =>
+    let orc := fun (f : bfmt) (_ : list N) => if (prec f =? 53)%Z then sc64 else sc32 in
     rf_agrees (readFloat bytes fi32) rf32
     && rf_agrees (readFloat bytes fi64) rf64
     && rf_agrees (readFloat bytes fi64u) rf64u
     && (let '(n, ok) := parseUint64_simple bytes in
         Bool.eqb ok pok && (if pok then (n =? pn)%Z else true))
+    (* a text readFloat calls bad is refused; everything else is the fast path or strconv *)
+    && optz_eqb (parseFloat_custom orc binary64 bytes) pf64
+    && optz_eqb (parseFloat_custom orc binary32 bytes) pf32
+  | CKey _ bytes as_number bare_err =>
+    Bool.eqb as_number (jsonIsNumberLiteral bytes && negb bare_err)
   | CFast _ m e neg o64 o32 =>
     fp_agrees (parseFloat64_reader m e neg) o64 && fp_agrees (parseFloat32_reader m e neg) o32
   | CStr _ input litlen ok decoded consumed chk_std std_ok std =>
